@@ -52,6 +52,9 @@ type DigestCase struct {
 	DupOf      []string          `json:"dup_of,omitempty"`
 	Script     []Edit            `json:"script"`
 	GoMaxProcs []int             `json:"gomaxprocs"`
+	// FailedCallFirst: before the digests are taken, Hash is called once on a list that names a
+	// missing file (and returns its error). What an earlier call did has no bearing on a later one.
+	FailedCallFirst bool `json:"failed_call_first,omitempty"`
 }
 
 type digestBook struct {
@@ -129,6 +132,9 @@ func execDigest(s *ev.Shard, root string, book *digestBook, c DigestCase) *rp.Fa
 	order := append([]string(nil), c.Order...)
 	if err := syncTree(root, files); err != nil {
 		return &rp.Fail{Sig: "harness", Msg: err.Error()}
+	}
+	if c.FailedCallFirst {
+		_, _ = hash.New().Hash([]string{filepath.Join(root, "no-such-file-for-an-earlier-call")})
 	}
 	procs := c.GoMaxProcs
 	if len(procs) == 0 {
